@@ -121,6 +121,16 @@ impl Desc {
             Desc::Echo(v, ow) => format!("{{\"method\":\"x.Echo\",\"parameters\":{{\"t\":{t},\"v\":{v}}}{}}}", if *ow { ",\"oneway\":true" } else { "" }),
             Desc::Fail(ow) => format!("{{\"parameters\":{{\"t\":{t}}},\"method\":\"x.Fail\"{}}}", if *ow { ",\"oneway\":true" } else { "" }),
             Desc::Sub(n, p) => format!("{{\"method\":\"x.Sub\",\"more\":true,\"parameters\":{{\"t\":{t},\"n\":{n},\"p\":{p}}}}}"),
+            Desc::Garbage(k) if k % 8 == 5 => {
+                // long run of non-UTF-8 bytes (never NUL)
+                return std::iter::repeat(0xFFu8).take(40 + (*k as usize)).collect();
+            }
+            Desc::Garbage(k) if k % 8 >= 6 => {
+                // a well-formed call for an unknown method carrying multi-byte text at various alignments
+                let fill = ["é", "日本", "😅"][(*k as usize / 8) % 3];
+                let body: String = std::iter::repeat(fill).take(12 + (*k as usize % 40)).collect();
+                format!("{{\"method\":\"x.Nope\",\"parameters\":{{\"t\":\"{}{}\"}}}}", &"abc"[..(*k as usize / 3) % 4], body)
+            }
             Desc::Garbage(k) => match k % 5 {
                 0 => "{\"method\":\"x.Nope\"}".to_string(),
                 1 => "garbage".to_string(),
